@@ -117,7 +117,7 @@ impl Read for SchedReader {
         let ev = self.sched.get(self.idx).copied().unwrap_or(Ev::Data(1_000_000_000));
         self.idx += 1;
         match ev {
-            Ev::Fail => Err(std::io::Error::new(std::io::ErrorKind::Other, "scheduled failure")),
+            Ev::Fail => Err(crate::util::injected_fault(self.pos + self.idx)),
             Ev::Data(n) => {
                 let k = n.max(1).min(buf.len()).min(self.data.len() - self.pos);
                 buf[..k].copy_from_slice(&self.data[self.pos..self.pos + k]);
